@@ -133,7 +133,7 @@ def run(chk):
                                      inline_rate=0.0, gotos=rng.random() < 0.3).text)
     # the deterministic idiom matrices (tools/matrix.py): -O0 against -O1..3 on every block
     import matrix
-    sources += [p.text for p in matrix.all_programs(["update-then-test", "update-then-loop", "comparisons", "far", "switch", "triples", "precedence", "loop-headers", "wide"])]
+    sources += [p.text for p in matrix.all_programs(["update-then-test", "update-then-loop", "comparisons", "far", "switch", "triples", "precedence", "loop-headers", "wide", "nested", "calls", "pointers"])]
     nstates = chk.scale(12, 64)
     for src in sources:
         r0 = h.compile(src, 0)
